@@ -61,22 +61,29 @@ def harness_dir():
     return d
 
 
-def build_harness(fset="full"):
-    """cargo build of the harness against /repo's working tree; returns the binary path."""
+def build_harness(fset="full", dest_dir=None):
+    """cargo build of the harness against /repo's working tree; returns the path of a private copy
+    of the binary.  Build and copy happen under a file lock: checks may run concurrently and C17
+    builds other feature sets into the same target directory."""
+    import fcntl
     feats = FEATURE_SETS[fset]
     hdir = harness_dir()
     tdir = os.path.join(hdir, "target")
+    os.makedirs(tdir, exist_ok=True)
     cmd = ["cargo", "build", "--release", "--offline", "--quiet", "--no-default-features"]
     if feats:
         cmd += ["--features", ",".join(feats)]
     env = dict(os.environ, CARGO_NET_OFFLINE="true", CARGO_TARGET_DIR=tdir)
     t0 = time.time()
-    p = subprocess.run(cmd, cwd=hdir, env=env, stdout=subprocess.PIPE, stderr=subprocess.STDOUT, text=True)
-    if p.returncode != 0:
-        raise ToolError("harness build failed (%s):\n%s" % (fset, p.stdout[-4000:]))
-    src = os.path.join(tdir, "release", "purl-conform")
-    dst = os.path.join(tdir, "purl-conform-" + fset)
-    shutil.copy2(src, dst)
+    dest_dir = dest_dir or os.path.join(WORK, "bin-%d" % os.getpid())
+    os.makedirs(dest_dir, exist_ok=True)
+    dst = os.path.join(dest_dir, "purl-conform-" + fset)
+    with open(os.path.join(tdir, ".verif-build.lock"), "w") as lock:
+        fcntl.flock(lock, fcntl.LOCK_EX)
+        p = subprocess.run(cmd, cwd=hdir, env=env, stdout=subprocess.PIPE, stderr=subprocess.STDOUT, text=True)
+        if p.returncode != 0:
+            raise ToolError("harness build failed (%s):\n%s" % (fset, p.stdout[-4000:]))
+        shutil.copy2(os.path.join(tdir, "release", "purl-conform"), dst)
     log("[build] harness(%s) %.1fs" % (fset, time.time() - t0))
     return dst
 
